@@ -107,7 +107,7 @@ func c09Parsers(c *run.C) {
 		if sizes == nil {
 			err = cd.Parse(doc, m.WithRefs())
 		} else {
-			_, err = cd.ParseReader(&mon.ChunkReader{Data: doc, Sizes: sizes}, m.WithRefs())
+			_, err = cd.ParseReader(&mon.ChunkReader{Data: doc, Sizes: sizes, EOFWithData: len(doc)%2 == 1}, m.WithRefs())
 		}
 	})
 	if !ok {
